@@ -242,6 +242,8 @@ def grammars(draw, o):
                     its = seq(higher, o.depth)
             else:
                 its = seq(names, o.depth)
+            import copy as _copy
+            its = tame(_copy.deepcopy(its))       # deep copy: items re-used from the pool must not be changed in place
             key = gram.render_seq(its)
             if key in seen:
                 continue
@@ -285,6 +287,47 @@ def grammars(draw, o):
         if not _uses_tmpl(rules):
             rules[0]['alts'].append({'items': [['tmpl', tmpl, [named_term_item() for _ in tmpl_params]]], 'alias': None})
     return {'rules': rules, 'terms': terms, 'ignore': ignore}
+
+
+def expansion_factor(items):
+    """rough number of BNF alternatives lark creates for one alternative (x~n..m, groups, optionals multiply)"""
+    f = 1
+    for i in items:
+        f *= _item_factor(i)
+        if f > 10**6: return f
+    return f
+
+
+def _item_factor(i):
+    k = i[0]
+    if k in ('t', 'n', 'p', 'lit', 're', 'tmpl', 'star', 'plus'): return 1 if k not in ('star',) else 2
+    if k == 'opt': return 1 + _item_factor(i[1])
+    if k == 'maybe': return 1 + sum(expansion_factor(a) for a in i[1])
+    if k == 'grp': return max(1, sum(expansion_factor(a) for a in i[1]))
+    if k == 'rep':
+        b = _item_factor(i[1])
+        return sum(b ** c for c in range(i[2], i[3] + 1)) if i[3] < 50 else 1
+    return 1
+
+
+def tame(items, limit=48):
+    """keep the expansion of one alternative below `limit` BNF alternatives by fixing the count of ranged repetitions
+    (x~2..4 -> x~2) from the right - a size bound (lark's LALR construction is quadratic in it), not a property matter"""
+    def fix(its):
+        for i in reversed(its):
+            if i[0] == 'rep' and i[3] != i[2]:
+                i[3] = i[2]; return True
+            if i[0] in ('grp', 'maybe'):
+                for a in i[1]:
+                    if fix(a): return True
+            elif i[0] in ('opt', 'star', 'plus', 'rep'):
+                if fix([i[1]]): return True
+        return False
+    n = 0
+    while expansion_factor(items) > limit and n < 20:
+        if not fix(items): break
+        n += 1
+    return items
 
 
 def _refs_ok(item, allowed):
